@@ -18,6 +18,7 @@ Ev == Traces[tr].events[l]
 Rng(s) == {s[i] : i \in DOMAIN s}
 
 CallOK(e) ==
+  /\ e.served => e.leaseok                                   \* served only while holding an unexpired lease of the shard (the election's ground truth in the API)
   /\ e.leader => (~e.lerr)                                   \* the leader never refuses with a leadership error
   /\ ~e.leader => (~e.served /\ e.lerr /\ e.named = e.known /\ ~e.changed)   \* others refuse, name the leader, change nothing
 ObsOK(e) ==
